@@ -9,6 +9,7 @@ import (
 	"math/big"
 	"math/rand"
 	"os"
+	"sort"
 	"strings"
 	"time"
 
@@ -24,6 +25,7 @@ import (
 	sdk "github.com/cosmos/cosmos-sdk/types"
 	"github.com/cosmos/cosmos-sdk/types/tx/signing"
 	authtypes "github.com/cosmos/cosmos-sdk/x/auth/types"
+	sdkvesting "github.com/cosmos/cosmos-sdk/x/auth/vesting/types"
 	banktypes "github.com/cosmos/cosmos-sdk/x/bank/types"
 	govtypes "github.com/cosmos/cosmos-sdk/x/gov/types"
 	govv1 "github.com/cosmos/cosmos-sdk/x/gov/types/v1"
@@ -42,9 +44,13 @@ import (
 	stakingpc "github.com/haqq-network/haqq/precompiles/staking"
 	"github.com/haqq-network/haqq/testutil"
 	utiltx "github.com/haqq-network/haqq/testutil/tx"
+	haqqtypes "github.com/haqq-network/haqq/types"
 	"github.com/haqq-network/haqq/utils"
+	erc20types "github.com/haqq-network/haqq/x/erc20/types"
 	evmtypes "github.com/haqq-network/haqq/x/evm/types"
+	lvtypes "github.com/haqq-network/haqq/x/liquidvesting/types"
 	ucdaotypes "github.com/haqq-network/haqq/x/ucdao/types"
+	vestingtypes "github.com/haqq-network/haqq/x/vesting/types"
 )
 
 // A "node world": one genesis document, deterministic keys, and applications built by the harness itself
@@ -83,6 +89,7 @@ type nodeWorld struct {
 	fresh       int
 	puppet      common.Address
 	nextProp    uint64
+	bigGas      bool
 }
 
 func (w *nodeWorld) acc(k int) sdk.AccAddress {
@@ -146,7 +153,7 @@ func newNodeWorld(seed int64) *nodeWorld {
 	for i := 0; i < nodeKeys; i++ {
 		ks := sha256.Sum256([]byte(fmt.Sprintf("key/%d/%d", seed, i)))
 		w.keys = append(w.keys, &ethsecp256k1.PrivKey{Key: ks[:]})
-		accs = append(accs, authtypes.NewBaseAccount(w.acc(i), nil, 0, 0))
+		accs = append(accs, &haqqtypes.EthAccount{BaseAccount: authtypes.NewBaseAccount(w.acc(i), nil, 0, 0), CodeHash: common.BytesToHash(crypto.Keccak256(nil)).Hex()})
 		bals = append(bals, banktypes.Balance{Address: w.acc(i).String(),
 			Coins: sdk.NewCoins(sdk.NewCoin(utils.BaseDenom, sdk.TokensFromConsensusPower(1_000_000, sdk.DefaultPowerReduction)))})
 	}
@@ -293,7 +300,7 @@ func (w *nodeWorld) ethTx(a *app.Haqq, ctx sdk.Context, k int, to *common.Addres
 
 func (w *nodeWorld) cosmosTx(a *app.Haqq, ctx sdk.Context, k int, msgs ...sdk.Msg) []byte {
 	tx, err := utiltx.PrepareCosmosTx(ctx, a, utiltx.CosmosTxArgs{TxCfg: w.txCfg, Priv: w.keys[k], ChainID: nodeChainID,
-		Gas: nodeCosmosGas, GasPrice: &nodeGasPrice, Msgs: msgs}, signing.SignMode_SIGN_MODE_DIRECT)
+		Gas: w.cosmosGas(), GasPrice: &nodeGasPrice, Msgs: msgs}, signing.SignMode_SIGN_MODE_DIRECT)
 	if err != nil {
 		panic(err)
 	}
@@ -302,6 +309,13 @@ func (w *nodeWorld) cosmosTx(a *app.Haqq, ctx sdk.Context, k int, msgs ...sdk.Ms
 		panic(err)
 	}
 	return bz
+}
+
+func (w *nodeWorld) cosmosGas() uint64 {
+	if w.bigGas {
+		return 12_000_000
+	}
+	return nodeCosmosGas
 }
 
 // buildTxs turns one transaction token into signed transaction bytes (possibly two transactions).
@@ -358,6 +372,46 @@ func (w *nodeWorld) buildTxs(a *app.Haqq, ctx sdk.Context, tok string) [][]byte 
 		return [][]byte{w.cosmosTx(a, ctx, ki(1), stakingtypes.NewMsgUndelegate(w.acc(ki(1)), w.valAddr, coin(f[2])[0]))}
 	case "dao":
 		return [][]byte{w.cosmosTx(a, ctx, ki(1), ucdaotypes.NewMsgFund(coin(f[2]), w.acc(ki(1))))}
+	case "vest":
+		// funder k converts key j into a vesting account: lockup in three future steps, vesting already complete
+		amt := mustBig(f[3])
+		third := new(big.Int).Div(amt, big.NewInt(3))
+		rest := new(big.Int).Sub(amt, new(big.Int).Mul(third, big.NewInt(2)))
+		c3 := func(x *big.Int) sdk.Coins {
+			return sdk.NewCoins(sdk.NewCoin(utils.BaseDenom, sdkmath.NewIntFromBigInt(x)))
+		}
+		lock := sdkvesting.Periods{{Length: 100000, Amount: c3(third)}, {Length: 100000, Amount: c3(third)}, {Length: 100000, Amount: c3(rest)}}
+		vst := sdkvesting.Periods{{Length: 1, Amount: c3(amt)}}
+		msg := vestingtypes.NewMsgConvertIntoVestingAccount(w.acc(ki(1)), w.acc(ki(2)), ctx.BlockTime().Add(-10*time.Second), lock, vst, true, false, nil)
+		return [][]byte{w.cosmosTx(a, ctx, ki(1), msg)}
+	case "liq":
+		w.bigGas = true // liquidation deploys an ERC20 contract for the new denomination
+		defer func() { w.bigGas = false }()
+		return [][]byte{w.cosmosTx(a, ctx, ki(1), lvtypes.NewMsgLiquidate(w.acc(ki(1)), w.acc(ki(2)), coin(f[3])[0]))}
+	case "redeem":
+		denom := fmt.Sprintf("aLIQUID%d", vmIdx(f[3]))
+		return [][]byte{w.cosmosTx(a, ctx, ki(1), lvtypes.NewMsgRedeem(w.acc(ki(1)), w.acc(ki(2)), sdk.NewCoin(denom, sdkmath.NewIntFromBigInt(mustBig(f[4])))))}
+	case "cvt", "cvtback":
+		// convert the ERC20 representation of liquid denomination d into bank coins (cvt) or back (cvtback)
+		denom := fmt.Sprintf("aLIQUID%d", vmIdx(f[2]))
+		pair, ok := a.Erc20Keeper.GetTokenPair(ctx, a.Erc20Keeper.GetTokenPairID(ctx, denom))
+		if !ok {
+			return nil
+		}
+		amt := sdkmath.NewIntFromBigInt(mustBig(f[3]))
+		w.bigGas = true
+		defer func() { w.bigGas = false }()
+		if f[0] == "cvt" {
+			return [][]byte{w.cosmosTx(a, ctx, ki(1), erc20types.NewMsgConvertERC20(amt, w.acc(ki(1)), pair.GetERC20Contract(), w.eth(ki(1))))}
+		}
+		return [][]byte{w.cosmosTx(a, ctx, ki(1), erc20types.NewMsgConvertCoin(sdk.NewCoin(denom, amt), w.eth(ki(1)), w.acc(ki(1))))}
+	case "daoliq":
+		// fund the DAO with a liquid denomination and with the base denomination (a holder of two denominations)
+		liquid := sdk.NewCoin(fmt.Sprintf("aLIQUID%d", vmIdx(f[2])), sdkmath.NewIntFromBigInt(mustBig(f[3])))
+		return [][]byte{w.cosmosTx(a, ctx, ki(1), ucdaotypes.NewMsgFund(sdk.NewCoins(liquid), w.acc(ki(1)))),
+			[]byte("again:dao." + f[1] + ".12345")}
+	case "daoxfer":
+		return [][]byte{w.cosmosTx(a, ctx, ki(1), ucdaotypes.NewMsgTransferOwnership(w.acc(ki(1)), w.acc(ki(2))))}
 	case "wdr":
 		dpc := common.HexToAddress("0x0000000000000000000000000000000000000801")
 		d, _ := distrpc.NewPrecompile(puppetZeroDistr())
@@ -418,6 +472,8 @@ func nodeGen(r *rand.Rand, tier string, prop string) []Case {
 		c := Case{fmt.Sprintf("world # seed=%d", r.Intn(1_000_000))}
 		c = append(c, "blk # dt=6 txs=deploy.0|eth.1.5")
 		c = append(c, "blk # dt=6 txs=fundpup.0.1000000000000000|approve.1|approve.2|mdeleg.3.1000000000000000000|mdeleg.1.1000000000000000000|mdeleg.2.1000000000000000000")
+		c = append(c, "blk # dt=6 txs=vest.4.5.6000000000000000000000")
+		var liqTo []int
 		swapAt := 2 + r.Intn(blocks-4)
 		swapped := "bech32" // the extension that is inactive
 		for b := 2; b < blocks; b++ {
@@ -425,7 +481,13 @@ func nodeGen(r *rand.Rand, tier string, prop string) []Case {
 			nt := r.Intn(5)
 			for j := 0; j < nt; j++ {
 				k := r.Intn(nodeKeys)
-				switch x := r.Intn(14); {
+				x := r.Intn(18)
+				if x >= 16 {
+					x = 10 // the vesting / liquid / DAO group twice as often
+				}
+				switch {
+				case x >= 14:
+					txs = append(txs, fmt.Sprintf("dao.%d.%d", k, 1+r.Intn(1_000_000)))
 				case x < 2:
 					txs = append(txs, fmt.Sprintf("send.%d.%d.%d", k, r.Intn(nodeKeys+3), 1+r.Intn(1_000_000)))
 				case x < 4:
@@ -461,7 +523,35 @@ func nodeGen(r *rand.Rand, tier string, prop string) []Case {
 				case x < 10:
 					txs = append(txs, fmt.Sprintf("mundeleg.3.%d", 1000+r.Intn(1_000_000)))
 				case x < 11:
-					txs = append(txs, fmt.Sprintf("dao.%d.%d", k, 1+r.Intn(1_000_000)))
+					switch r.Intn(6) {
+					case 4, 5:
+						if len(liqTo) < 3 {
+							to := r.Intn(nodeKeys)
+							txs = append(txs, fmt.Sprintf("liq.5.%d.%d000000000000000000", to, 1000+r.Intn(500)))
+							liqTo = append(liqTo, to)
+						}
+					case 0:
+						txs = append(txs, fmt.Sprintf("daoxfer.%d.%d", k, r.Intn(nodeKeys)))
+					case 1:
+						if len(liqTo) < 3 {
+							to := r.Intn(nodeKeys)
+							txs = append(txs, fmt.Sprintf("liq.5.%d.%d000000000000000000", to, 1000+r.Intn(500)))
+							liqTo = append(liqTo, to)
+						} else {
+							d := r.Intn(len(liqTo))
+							txs = append(txs, fmt.Sprintf("daoliq.%d.%d.%d000000000000000", liqTo[d], d, 1+r.Intn(900000)))
+						}
+					case 2:
+						if len(liqTo) > 0 && r.Intn(2) == 0 {
+							d := r.Intn(len(liqTo))
+							txs = append(txs, fmt.Sprintf("cvt.%d.%d.%d000000000000000", liqTo[d], d, 900000), fmt.Sprintf("daoliq.%d.%d.%d000000000000000", liqTo[d], d, 1+r.Intn(900000)))
+						} else if len(liqTo) > 0 {
+							d := r.Intn(len(liqTo))
+							txs = append(txs, fmt.Sprintf("redeem.%d.%d.%d.%d000000000000000", liqTo[d], r.Intn(nodeKeys), d, 1+r.Intn(900000)))
+						}
+					default:
+						txs = append(txs, fmt.Sprintf("dao.%d.%d", k, 1+r.Intn(1_000_000)))
+					}
 				case x < 12:
 					txs = append(txs, fmt.Sprintf("wdr.%d", 3))
 				case x < 13:
@@ -489,6 +579,13 @@ func nodeGen(r *rand.Rand, tier string, prop string) []Case {
 				if r.Intn(5) == 0 {
 					c = append(c, "export")
 				}
+			}
+		}
+		if prop == "C19" || prop == "C15" {
+			// a DAO holder with two denominations: liquidate to key 1, fund the DAO with the liquid and the base denomination
+			if len(liqTo) < 4 {
+				c = append(c, "blk # dt=6 txs=liq.5.1.1000000000000000000000")
+				c = append(c, fmt.Sprintf("blk # dt=6 txs=cvt.1.%d.9000000000000000000|daoliq.1.%d.5000000000000000000|cvtback.1.%d.1000000000000000000|daoxfer.1.2", len(liqTo), len(liqTo), len(liqTo)))
 			}
 		}
 		if prop == "C19" {
@@ -572,6 +669,12 @@ func nodeExecHistory(c Case, afterBlock func(*nodeRun, int), atMark func(*nodeRu
 					}
 					for _, bz := range w.buildTxs(a, ctx, tok) {
 						if bz == nil {
+							continue
+						}
+						if strings.HasPrefix(string(bz), "again:") {
+							for _, bz2 := range w.buildTxs(a, ctx, strings.TrimPrefix(string(bz), "again:")) {
+								deliver(bz2)
+							}
 							continue
 						}
 						if strings.HasPrefix(string(bz), "vote:") {
@@ -683,7 +786,212 @@ func c15Exec(c Case) (outs []string, fails []Failure, tags []string) {
 	return
 }
 
+// c19Exec: at every "export" mark the application state is exported, a fresh application is initialised from
+// the export, and its own export is compared with the first one, module by module.
+func c19Exec(c Case) (outs []string, fails []Failure, tags []string) {
+	var diffs []string
+	mark := func(run *nodeRun, what string, i int) {
+		if what != "export" || len(diffs) > 0 {
+			return
+		}
+		exp1, err := run.a.ExportAppStateAndValidators(false, nil, nil)
+		if err != nil {
+			diffs = append(diffs, "export failed: "+err.Error())
+			return
+		}
+		b := nodeNewApp(dbm.NewMemDB())
+		var last time.Time
+		if len(run.blocks) > 0 {
+			last = run.blocks[len(run.blocks)-1].time
+		} else {
+			last = run.w.genesisTime
+		}
+		func() {
+			defer func() {
+				if r := recover(); r != nil {
+					diffs = append(diffs, fmt.Sprintf("InitChain from the export panics: %v", r))
+				}
+			}()
+			b.InitChain(abci.RequestInitChain{Time: last, ChainId: nodeChainID, Validators: []abci.ValidatorUpdate{},
+				ConsensusParams: app.DefaultConsensusParams, AppStateBytes: exp1.AppState, InitialHeight: exp1.Height})
+			b.Commit()
+		}()
+		if len(diffs) > 0 {
+			return
+		}
+		exp2, err := b.ExportAppStateAndValidators(false, nil, nil)
+		if err != nil {
+			diffs = append(diffs, "second export failed: "+err.Error())
+			return
+		}
+		tags = append(tags, "export-compared")
+		// the same reads through the keepers on both applications
+		q1, q2 := nodeQueryDigest(run.w, run.a, last), nodeQueryDigest(run.w, b, last)
+		for i := range q1 {
+			if i < len(q2) && q1[i] != q2[i] {
+				diffs = append(diffs, fmt.Sprintf("after block %d, query %s  vs  %s", len(run.blocks)+1, q1[i], q2[i]))
+				if len(diffs) > 3 {
+					break
+				}
+			}
+		}
+		var g1, g2 map[string]json.RawMessage
+		_ = json.Unmarshal(exp1.AppState, &g1)
+		_ = json.Unmarshal(exp2.AppState, &g2)
+		var mods []string
+		for m := range g1 {
+			mods = append(mods, m)
+		}
+		sort.Strings(mods)
+		for _, m := range mods {
+			if !c19Compared[m] {
+				continue
+			}
+			if d := jsonDiff(m, g1[m], g2[m]); len(d) > 0 {
+				diffs = append(diffs, fmt.Sprintf("after block %d, module %s: %s", len(run.blocks)+1, m, strings.Join(d, "; ")))
+			}
+		}
+	}
+	_, outs, tags2 := nodeExecHistory(c, nil, mark)
+	tags = append(tags, tags2...)
+	if len(diffs) > 0 {
+		sig := "C19:export-import-export-differs"
+		if len(diffs) == 1 && strings.Contains(diffs[0], "module epochs") && strings.Contains(diffs[0], "current_epoch_start_height") {
+			sig = "C19:epochs:current_epoch_start_height-replaced-by-import-height"
+		}
+		fails = append(fails, Failure{Signature: sig, What: strings.Join(diffs, "\n"), Case: c})
+	}
+	return
+}
+
+// nodeQueryDigest reads the state of Haqq's modules through their keepers (what the gRPC queries serve).
+func nodeQueryDigest(w *nodeWorld, a *app.Haqq, t time.Time) []string {
+	header := testutil.NewHeader(a.LastBlockHeight(), t, nodeChainID, w.proposer, a.LastCommitID().Hash, w.valSet.Hash())
+	ctx := a.BaseApp.NewContext(true, header)
+	var out []string
+	add := func(k string, v interface{}) { out = append(out, fmt.Sprintf("%s=%v", k, v)) }
+	addrs := []common.Address{w.puppet}
+	for i := range w.keys {
+		addrs = append(addrs, w.eth(i))
+	}
+	for i, ad := range addrs {
+		acc := sdk.AccAddress(ad.Bytes())
+		add(fmt.Sprintf("acct%d.bank", i), a.BankKeeper.GetAllBalances(ctx, acc))
+		add(fmt.Sprintf("acct%d.locked", i), a.BankKeeper.LockedCoins(ctx, acc))
+		add(fmt.Sprintf("acct%d.spendable", i), a.BankKeeper.SpendableCoins(ctx, acc))
+		add(fmt.Sprintf("acct%d.nonce", i), a.EvmKeeper.GetNonce(ctx, ad))
+		add(fmt.Sprintf("acct%d.evmbalance", i), a.EvmKeeper.GetBalance(ctx, ad))
+		if ea := a.EvmKeeper.GetAccountWithoutBalance(ctx, ad); ea != nil {
+			add(fmt.Sprintf("acct%d.codehash", i), common.BytesToHash(ea.CodeHash))
+		}
+		add(fmt.Sprintf("acct%d.bonded", i), a.StakingKeeper.GetDelegatorBonded(ctx, acc))
+		add(fmt.Sprintf("acct%d.dao", i), a.DaoKeeper.GetAccountBalances(ctx, acc))
+		if va, ok := a.AccountKeeper.GetAccount(ctx, acc).(*vestingtypes.ClawbackVestingAccount); ok {
+			add(fmt.Sprintf("acct%d.vesting", i), fmt.Sprintf("%s/%d/%d/%v/%v/%v", va.FunderAddress, va.GetStartTime(), va.EndTime, va.OriginalVesting, va.LockupPeriods, va.VestingPeriods))
+		}
+	}
+	for k := 0; k < 3; k++ {
+		add(fmt.Sprintf("puppet.slot%d", k), a.EvmKeeper.GetState(ctx, w.puppet, common.BigToHash(big.NewInt(int64(k)))))
+	}
+	add("evm.params", a.EvmKeeper.GetParams(ctx))
+	add("feemarket.params", a.FeeMarketKeeper.GetParams(ctx))
+	add("feemarket.basefee", a.FeeMarketKeeper.GetBaseFee(ctx))
+	add("feemarket.blockgas", a.FeeMarketKeeper.GetBlockGasWanted(ctx))
+	add("erc20.params", a.Erc20Keeper.GetParams(ctx))
+	for _, tp := range a.Erc20Keeper.GetTokenPairs(ctx) {
+		add("erc20.pair", tp.String())
+		if ea := a.EvmKeeper.GetAccountWithoutBalance(ctx, tp.GetERC20Contract()); ea != nil {
+			add("erc20.pair.code", len(a.EvmKeeper.GetCode(ctx, common.BytesToHash(ea.CodeHash))))
+		}
+	}
+	add("liquidvesting.params", a.LiquidVestingKeeper.GetParams(ctx))
+	add("liquidvesting.counter", a.LiquidVestingKeeper.GetDenomCounter(ctx))
+	for _, d := range a.LiquidVestingKeeper.GetAllDenoms(ctx) {
+		add("liquidvesting.denom", d.String())
+	}
+	if pr, err := a.DaoKeeper.Params(ctx, &ucdaotypes.QueryParamsRequest{}); err == nil {
+		add("dao.params", pr.String())
+	}
+	add("dao.total", a.DaoKeeper.GetTotalBalance(ctx))
+	add("dao.balances", a.DaoKeeper.GetAccountsBalances(ctx))
+	add("coinomics.params", a.CoinomicsKeeper.GetParams(ctx))
+	add("coinomics.prevts", a.CoinomicsKeeper.GetPrevBlockTS(ctx))
+	add("coinomics.maxsupply", a.CoinomicsKeeper.GetMaxSupply(ctx))
+	for _, e := range a.EpochsKeeper.AllEpochInfos(ctx) {
+		add("epochs.info", e.String())
+	}
+	add("bank.supply", a.BankKeeper.GetSupply(ctx, utils.BaseDenom))
+	return out
+}
+
+// modules whose exported state is compared: Haqq's own modules and the account / bank state they own
+var c19Compared = map[string]bool{"evm": true, "feemarket": true, "erc20": true, "vesting": true, "liquidvesting": true, "ucdao": true,
+	"dao": true, "coinomics": true, "epochs": true, "auth": true, "bank": true}
+
+// jsonDiff lists the paths at which two JSON documents differ (at most a few).
+func jsonDiff(path string, a, b json.RawMessage) []string {
+	var x, y interface{}
+	_ = json.Unmarshal(a, &x)
+	_ = json.Unmarshal(b, &y)
+	var out []string
+	var rec func(p string, u, v interface{})
+	rec = func(p string, u, v interface{}) {
+		if len(out) >= 4 {
+			return
+		}
+		switch ut := u.(type) {
+		case map[string]interface{}:
+			vt, ok := v.(map[string]interface{})
+			if !ok {
+				out = append(out, p+": shape differs")
+				return
+			}
+			keys := map[string]bool{}
+			for k := range ut {
+				keys[k] = true
+			}
+			for k := range vt {
+				keys[k] = true
+			}
+			var ks []string
+			for k := range keys {
+				ks = append(ks, k)
+			}
+			sort.Strings(ks)
+			for _, k := range ks {
+				rec(p+"."+k, ut[k], vt[k])
+			}
+		case []interface{}:
+			vt, ok := v.([]interface{})
+			if !ok || len(vt) != len(ut) {
+				n := -1
+				if ok {
+					n = len(vt)
+				}
+				out = append(out, fmt.Sprintf("%s: %d entries vs %d", p, len(ut), n))
+				return
+			}
+			for i := range ut {
+				rec(fmt.Sprintf("%s[%d]", p, i), ut[i], vt[i])
+			}
+		default:
+			if fmt.Sprint(u) != fmt.Sprint(v) {
+				out = append(out, fmt.Sprintf("%s: %v vs %v", p, u, v))
+			}
+		}
+	}
+	rec(path, x, y)
+	return out
+}
+
 func init() {
+	Register(&Property{
+		ID: "C19", NoModel: true,
+		Gen:        func(r *rand.Rand, tier string) []Case { return nodeGen(r, tier, "C19") },
+		Exec:       c19Exec,
+		NonTrivial: func(tags []string) bool { return hasTag(tags, "export-compared") },
+		Rule:       "block histories as for C15 (contracts with code and storage, a liquid denomination with its ERC20 token pair, a vesting account mid-schedule, DAO holders, coinomics minting every block, delegations, a governance parameter change); at marked block boundaries and at the end the state is exported, a fresh application is initialised from the export and exported again; the two documents are compared path by path for the modules evm, feemarket, erc20, vesting, liquidvesting, ucdao, coinomics, epochs, auth, bank; non-trivial = at least one export compared; distinct = distinct histories",
+	})
 	Register(&Property{
 		ID: "C15", NoModel: true,
 		Gen:        func(r *rand.Rand, tier string) []Case { return nodeGen(r, tier, "C15") },
